@@ -34,7 +34,7 @@ RULE = ("bids: every presence/absence combination of ses, task, run, space, desc
         "different length, random dissimilarity vectors, sort True/False. mne: Epochs cut lazily (preload=False) from a 40-80 sample RawArray with 2-6 events, optional peak-to-peak rejection and events running off the recording; EpochsArray "
         "1-6 epochs x 1-5 channels x 1-8 samples, event table with distinct columns, optional "
         "FIF round trip under a BIDS-style name. design: 1-4 conditions x 1-4 onsets inside the "
-        "run, 7 TRs, 30-120 volumes, 0-3 confound columns + optional NaN column, generated row "
+        "run, 7 TRs, 30-120 volumes, 0-3 confound columns + optional NaN column, confound row labels default / offset (iloc[k:]) / volume number / time, generated row "
         "permutation and alternative onsets for the other conditions. spm: 1-4 runs of "
         "generated lengths, orthonormal bases (DCT or QR of a generated matrix, 0-4 "
         "regressors), data 1-5 voxels; get_residuals through a nitools stand-in. Non-trivial: "
@@ -734,9 +734,16 @@ def design_case(draw):
         conf = dict(names=CONF_NAMES[:n_cf], cols=cols, units=units,
                     nan_at=draw(st.one_of(st.integers(0, n_cf), st.none())),
                     nan_rows=draw(st.sampled_from([[0], [0], [-1], [3], [0, 1], [5, -1]])))
-    return dict(tr=tr, n_vols=n_vols, names=names, rows=rows, alt_onsets=alt,
+    case = dict(tr=tr, n_vols=n_vols, names=names, rows=rows, alt_onsets=alt,
                 perm=draw(gen.permutation(len(rows))), target=draw(st.integers(0, n_cond - 1)),
                 confounds=conf)
+    # row labels of the confound table (drawn last): the default 0..n-1 of a freshly read table, or
+    # what an ordinary earlier step leaves behind - dummy volumes sliced off (labels k..k+n-1),
+    # 1-based volume numbers, acquisition times. Rows are volumes by position in every case.
+    case['conf_index'] = draw(st.sampled_from(['default', 'default', 'default', 'offset', 'offset',
+                                               'volume-number', 'time']))
+    case['conf_offset'] = draw(st.integers(1, 12))
+    return case
 
 
 def _events_frame(rows, names):
@@ -767,10 +774,44 @@ def _confound_frame(conf, n_vols):
     return pandas.DataFrame(cols), kept
 
 
+def _reindexed(conf, case):
+    """the same confound table (same rows in the same order) under other row labels"""
+    kind, n = case.get('conf_index', 'default'), conf.shape[0]
+    if kind == 'offset':        # what table.iloc[k:] of a longer table carries
+        k = int(case['conf_offset'])
+        long = pandas.concat([conf.iloc[:k], conf], ignore_index=True)
+        return long.iloc[k:]
+    out = conf.copy()
+    if kind == 'volume-number':
+        out.index = pandas.Index(np.arange(1, n + 1), name='volume')
+    elif kind == 'time':
+        out.index = pandas.Index(case['tr'] * np.arange(n), name='time')
+    return out
+
+
 def check_design(case):
     tr, n_vols, names, rows = case['tr'], case['n_vols'], case['names'], case['rows']
     events = _events_frame(rows, names)
     conf, kept = _confound_frame(case['confounds'], n_vols)
+    if conf is not None and case.get('conf_index', 'default') != 'default':
+        # rows of the confound table are the run's volumes by position: the row labels the table
+        # happens to carry do not enter the design matrix
+        conf_i = _reindexed(conf, case)
+        if conf_i.shape != conf.shape or not np.array_equal(conf_i.values, conf.values,
+                                                            equal_nan=True):
+            raise Reject('re-labelled confound table differs', 'harness:confound-index')
+        d0 = np.asarray(lib(make_design_matrix, events.copy(), tr, n_vols, conf,
+                            on_error='violation', sig='design:raises')[0], dtype=float)
+        o1 = lib(make_design_matrix, events.copy(), tr, n_vols, conf_i, on_error='violation',
+                 sig='design:confound-index:raises')
+        d1 = np.asarray(o1[0], dtype=float)
+        require(d1.shape == d0.shape and np.array_equal(d1, d0, equal_nan=True),
+                'confound table with row labels %s (%s, same %d rows in the same order): design '
+                'matrix shape %s, with the default labels %s%s' % (
+                    list(conf_i.index[:3]), case['conf_index'], n_vols, d1.shape, d0.shape,
+                    '' if d1.shape != d0.shape else ', max diff %.3g, %d NaN' % (
+                        core.maxdiff(np.nan_to_num(d1), np.nan_to_num(d0)), int(np.isnan(d1).sum()))),
+                'design:confound-index')
     ev_before = events.copy()
     out = lib(make_design_matrix, events, tr, n_vols, conf, on_error='violation',
               sig='design:raises')
@@ -846,7 +887,8 @@ def classify_design(case):
               'confounds:none' if cf is None else 'confounds:%d' % len(cf['names']),
               'nan-column' if cf is not None and cf['nan_at'] is not None else 'no-nan-column',
               'table-sorted' if [r[0] for r in case['rows']] == sorted(r[0] for r in case['rows'])
-              else 'table-unsorted']
+              else 'table-unsorted',
+              'conf-index:' + (case.get('conf_index', 'default') if cf is not None else 'n/a')]
     return labels, n_cond >= 2 or (cf is not None and len(cf['names']) > 0)
 
 
